@@ -249,8 +249,11 @@ UNIT = VUnit(
                             "r ==> final(self).pos >= old(self).pos + word@.len()",
                             "r ==> final(self).src@.subrange(final(self).pos - word@.len(), final(self).pos as int) =~= word@",
                             "r ==> forall|i: int| old(self).pos <= i < final(self).pos - word@.len() ==> is_ws(final(self).src@[i])",
-                            "r ==> (final(self).pos == final(self).len || !(is_alpha(final(self).src@[final(self).pos as int]) || final(self).src@[final(self).pos as int] == 95))"],
+                            "r ==> (final(self).pos == final(self).len || !(is_alpha(final(self).src@[final(self).pos as int]) || final(self).src@[final(self).pos as int] == 95))",
+                            # completeness (C10): whenever the word does follow a maximal run of layout bytes and ends on a word boundary, it IS consumed
+                            "forall|b: int| #![trigger old(self).src@[b]] (old(self).pos <= b <= old(self).len && (forall|i: int| old(self).pos <= i < b ==> is_ws(old(self).src@[i])) && (b == old(self).len || !is_ws(old(self).src@[b])) && b + word@.len() <= old(self).len && old(self).src@.subrange(b, b + word@.len()) =~= word@ && (b + word@.len() == old(self).len || !(is_alpha(old(self).src@[b + word@.len()]) || old(self).src@[b + word@.len()] == 95))) ==> r"],
            loops={1: dict(invariant=["self.inv()", "len == self.len", "self.pos <= beg <= len", "forall|i: int| self.pos <= i < beg ==> is_ws(self.src@[i])"],
+                          ensures=["beg == len || !is_ws(self.src@[beg as int])"],
                           decreases="len - beg")},
            rewrites=[Rw("R5", r"&self\.src\[beg\.\.end\] == word\.as_bytes\(\)", "slice_eq(self.src, beg, end, word)")],
            inserts=[(r"self\.pos = end;", 1, "proof { assert(self.src@[end - 1] == word@[word@.len() - 1]) by { assert(self.src@.subrange(beg as int, end as int)[word@.len() - 1] == word@[word@.len() - 1]); }; lemma_after_ascii(self.src@, end - 1); }")],
